@@ -723,6 +723,62 @@ impl Space for DateProduct {
     }
 }
 
+/// Every list of up to three calendar annotations over two calendars x critical flags (85 lists), with an
+/// unrelated annotation before, between or after them, behind one base string per kind of value.
+struct CalendarAnnotationLists {
+    lists: Vec<String>,
+}
+impl CalendarAnnotationLists {
+    fn new() -> Self {
+        let one: Vec<String> = ["[u-ca=iso8601]", "[u-ca=gregory]", "[!u-ca=iso8601]", "[!u-ca=gregory]"].iter().map(|s| s.to_string()).collect();
+        let mut lists: Vec<Vec<String>> = vec![vec![]];
+        for n in 1..=3usize {
+            let mut cur: Vec<Vec<String>> = vec![vec![]];
+            for _ in 0..n {
+                cur = cur.into_iter().flat_map(|l| one.iter().map(move |a| { let mut l2 = l.clone(); l2.push(a.clone()); l2 })).collect();
+            }
+            lists.extend(cur);
+        }
+        let mut out = vec![];
+        for l in lists {
+            out.push(l.concat());
+            for pos in 0..=l.len() {
+                for other in ["[foo=bar]", "[!foo=bar]"] {
+                    let mut l2 = l.clone();
+                    l2.insert(pos, other.to_string());
+                    out.push(l2.concat());
+                }
+            }
+        }
+        out.sort();
+        out.dedup();
+        CalendarAnnotationLists { lists: out }
+    }
+}
+const ANNOTATION_BASES: [&str; 8] = ["2020-02-29", "2020-02-29T12:30", "T12:30", "12:30", "2020-02", "02-29", "2020-02-29T12:30Z", "2020-02-29T12:30+00:00[UTC]"];
+impl Space for CalendarAnnotationLists {
+    fn name(&self) -> String {
+        "c12.calendar_annotation_lists".into()
+    }
+    fn len(&self) -> u64 {
+        (self.lists.len() * ANNOTATION_BASES.len()) as u64
+    }
+    fn block(&self) -> u64 {
+        16
+    }
+    fn eval(&self, i: u64, out: &mut Out) {
+        let ix = unrank(i, &[ANNOTATION_BASES.len() as u64, self.lists.len() as u64]);
+        let s = format!("{}{}", ANNOTATION_BASES[ix[0]], self.lists[ix[1]]);
+        if self.lists[ix[1]].matches("u-ca").count() >= 2 {
+            out.nontrivial += 1;
+        }
+        judge(out, &s, &DATE_GOALS);
+    }
+    fn describe(&self) -> serde_json::Value {
+        json!({"annotation_lists": self.lists.len(), "bases": ANNOTATION_BASES})
+    }
+}
+
 struct TailProduct {
     dates: Vec<&'static str>,
 }
@@ -961,6 +1017,7 @@ pub fn spaces(env: &Env) -> Vec<Box<dyn Space>> {
     let mut v: Vec<Box<dyn Space>> = vec![
         Box::new(Mutations { double: false }),
         Box::new(DateProduct),
+        Box::new(CalendarAnnotationLists::new()),
         Box::new(TailProduct { dates: if quick { vec!["2020-02-29", ""] } else { vec!["2020-02-29", "", "20200229", "+275760-09-13", "-271821-04-20", "1972-02", "--12-31", "2021-02-29"] } }),
         Box::new(DurationProduct { values: if quick { vec!["", "1", "4294967296"] } else { vec!["", "0", "1", "4294967295", "4294967296"] } }),
         Box::new(ShortStrings { max_len: if quick { 5 } else { 6 } }),
